@@ -11,7 +11,7 @@ TECHNIQUE = "model-based generation of view-expression histories (subset/combine
 RULE = (
     "screens of arity 1..3 with 1..12 rows (duplicates frequent), any plate-atomic mask; a history of 3..12 operations, each building a new view "
     "from earlier ones (operands chosen by drawn indices): subset with empty/full/overlapping masks, subset of subset, combine, concat, invert, "
-    "get_plate, observed/unobserved split, to_screen, unique-condition filter; a second screen for the cross-parent refusal; random int columns for "
+    "get_plate, observed/unobserved split, to_screen, unique-condition filter, and in-place reveals of the parent (set_observed) between them; a second screen for the cross-parent refusal; random int columns for "
     "select_unique_zipped_numpy_arrays vs a dict reference. Non-trivial = history contains a nested subset and a union and has depth>=3. distinct = distinct case JSON."
 )
 ASSUMPTIONS = [
@@ -26,7 +26,7 @@ def budgets(tier):
     return {"examples": 2500, "max_s": 700, "shrink_s": 90, "shards": 16}
 
 
-OPS = ["subset_root", "subset", "subset", "combine", "concat", "invert", "get_plate", "observed", "unobserved", "to_screen", "unique"]
+OPS = ["subset_root", "subset", "subset", "combine", "concat", "invert", "get_plate", "observed", "unobserved", "to_screen", "unique", "set_observed"]
 
 
 @st.composite
@@ -79,6 +79,17 @@ def _check_view(view, idx, screen, tag):
     require(S.mapping_equal(view.sample_mapping, screen.sample_mapping), tag + ".sample_mapping", "view does not expose the parent's sample mapping")
 
 
+def _self_consistent(view, screen, tag):
+    """whatever rows a view currently selects, every attribute must be the parent's value at exactly those rows"""
+    sel = np.asarray(view.selection_vector)
+    idx = np.where(sel)[0]
+    require(view.size == len(idx), tag + ".self.size", lambda: "view.size %r but its selection vector selects %d rows" % (view.size, len(idx)))
+    for a in ATTRS:
+        got = getattr(view, a)
+        exp = np.asarray(getattr(screen, a))[idx]
+        require(_eq(got, exp), tag + ".self." + a, lambda: "view.%s = %r, but the parent's values at the rows the view selects %r are %r" % (a, np.asarray(got).tolist(), idx.tolist(), exp.tolist()))
+
+
 def check_case(case):
     from batchie.common import select_unique_zipped_numpy_arrays
     from batchie.data import ScreenSubset, filter_dataset_to_unique_treatments
@@ -90,6 +101,7 @@ def check_case(case):
     frozen = {a: np.array(getattr(screen, a), copy=True) for a in ATTRS}
     views = []  # (view object, sorted index list, depth, kinds)
     nested = union = False
+    mutated = False
     maxdepth = 0
 
     def pick(i):
@@ -148,6 +160,26 @@ def check_case(case):
             require(v is not None, kind + ".exists", "%s view missing" % kind)
             idx = np.where(want)[0].tolist()
             depth = 1
+        elif kind == "set_observed":
+            # the parent is changed in place (a reveal): pick an unobserved plate and mark it observed
+            un = sorted(set(int(x) for x in np.asarray(screen.plate_ids)[~mask]))
+            if not un:
+                continue
+            rows_ = np.asarray(screen.plate_ids) == un[op["a"] % len(un)]
+            vals_ = np.linspace(0.1, 0.9, int(rows_.sum()))
+            screen.set_observed(rows_, vals_)
+            mask = mask | rows_
+            frozen["observations"] = np.array(screen.observations, copy=True)
+            frozen["observation_mask"] = np.array(screen.observation_mask, copy=True)
+            mutated = True
+            # views built on the parent's own mask array (observed / unobserved views) may legitimately follow the change;
+            # every view must stay consistent with its own selection, and views built from copies must still match the model
+            for v_i, (ov, oidx, od, okind) in enumerate(views):
+                _self_consistent(ov, screen, "after_set_observed." + okind)
+                if okind in ("observed", "unobserved"):
+                    # whether such a view follows the parent's mask is not asserted: its model is re-read from the view itself
+                    views[v_i] = (ov, np.where(np.asarray(ov.selection_vector))[0].tolist(), od, okind)
+            continue
         elif kind == "to_screen":
             pv, pidx, pd, _ = pick(op["a"])
             m = pv.to_screen()
@@ -175,10 +207,13 @@ def check_case(case):
         views.append((v, sorted(idx), depth, kind))
         # earlier views are unaffected by later operations
         for ov, oidx, _, okind in views[:-1][-3:]:
+            _self_consistent(ov, screen, "later." + okind)
+            if mutated and okind in ("observed", "unobserved"):
+                continue  # built on the parent's own mask array
             sel = np.zeros(n, dtype=bool)
             sel[np.array(oidx, dtype=int)] = True
             require(np.array_equal(np.asarray(ov.selection_vector), sel), "aliasing", lambda: "an earlier %s view changed after a later %s" % (okind, kind))
-    # parent never modified by view operations
+    # parent never modified by view operations (other than by the set_observed steps above, which update `frozen`)
     for a in ATTRS:
         require(_eq(getattr(screen, a), frozen[a]), "parent_untouched." + a, "parent screen's %s changed" % a)
 
